@@ -286,7 +286,8 @@ def r6(ctx):
         ctx.look()
         g = P.parent(d)
         t = norm(g.test) if isinstance(g, ast.If) else ""
-        ok_guard = isinstance(g, ast.If) and "spans_intercept" in t and "reduced_rank" in t and " and " in t and " or " not in t and "not " not in t
+        conj = [norm(v) for v in (g.test.values if isinstance(g, ast.If) and isinstance(g.test, ast.BoolOp) and isinstance(g.test.op, ast.And) else [])]
+        ok_guard = isinstance(g, ast.If) and sorted(conj) == sorted(["isinstance(encoded, dict)", "encoded.__formulaic_metadata__.spans_intercept", "reduced_rank"])
         tgt = d.targets[0]
         ok_tgt = isinstance(tgt, ast.Subscript) and norm(tgt.slice).endswith(".drop_field") and isinstance(tgt.value, ast.Name)
         # the deleted-from object is a fresh copy made in the same branch
@@ -296,7 +297,8 @@ def r6(ctx):
         ctx.check(ok_guard and ok_tgt and ok_copy, "C03.R6",
                   "the reference column is deleted only under spans_intercept and reduced_rank, from a copy of the cached encoding", f.module.line(d),
                   ctx.construct(f, text="del drop_field"),
-                  f"guard ok={ok_guard} (`{t[:80]}`), target ok={ok_tgt}, copy before delete={ok_copy} (deleting from the cached dict would corrupt the "
+                  f"guard ok={ok_guard} (`{t[:110]}`; expected exactly isinstance(encoded, dict) ∧ spans_intercept ∧ reduced_rank — an extra truthiness test on the "
+                  f"drop field skips the reduction for a falsy reference level such as 0 or ''), target ok={ok_tgt}, copy before delete={ok_copy} (deleting from the cached dict would corrupt the "
                   f"full-rank use of the same factor)")
         if isinstance(g, ast.If) and prior:
             ok_red = kwarg(prior[-1].value, "reduced") is not None and is_const(kwarg(prior[-1].value, "reduced"), True) if isinstance(prior[-1].value, ast.Call) else False
